@@ -706,8 +706,12 @@ def consistent(choices: Dict[Term, bool]) -> bool:
         pts = set()
         for _op, c, _v in cons:
             pts |= {c, c - Fraction(1, 2), c + Fraction(1, 2)}
-        if not any(all(ops[op](x, c) == v for op, c, v in cons) for x in pts):
-            return False
+        if any(all(ops[op](x, c) == v for op, c, v in cons) for x in pts):
+            continue
+        # a NaN compares False with everything (only != holds): `x < 1` false together with `x >= 1` false is the NaN case
+        if all(v == (op == "!=") for op, c, v in cons):
+            continue
+        return False
     return True
 
 
